@@ -16,6 +16,12 @@ CHECKS = {k: (v["text"], v["note"].replace("{TRUST}", TRUST), TECH) for k, v in 
 NA = {
  "C22": "protocol-level safety over all executions of a distributed protocol (message delay, loss, Byzantine voters): not expressible as per-function contracts; the per-call threshold/quorum facts are covered under C18/C19/C21 where claimed",
  "C29": "oracle is a reference implementation of cryptographic primitives (BLAKE2b, xxHash, Keccak, ed25519/ZIP-215, schnorrkel, secp256k1) behind third-party assembly/unsafe code: no contract within reach decides digest or verdict equality",
+ "C01": "not reached: the statement equates the computed root with the specification's Merkle root of a finite map for every history; the kernels it rests on are covered elsewhere (node encoding and header: C07, walkers of the in-memory trie: C02, hashed-value threshold: C06), but no contract carries 'root == specRoot(map)' through insert/delete/encode (needs an inductive specification of the trie shape, not attempted)",
+ "C03": "not reached: snapshot isolation rests on the copy-on-write rule (a trie writes only nodes of its own generation); stating it needs a frame condition conditional on a field of the written object, which the engine does not have; sub-agents also showed that the unchanged code breaks the statement when a trie is modified after being snapshotted (by design of Snapshot)",
+ "C04": "not reached: round trip through the database (WriteDirty / Load / GetFromDB) over a key-value store model; no contracts written",
+ "C05": "not reached: proof generation / verification are recursive walks over decoded nodes with hashing as an oracle; no contracts written",
+ "C14": "not reached: the only kernels within reach (compact integers, NewBodyFromEncodedBytes) are covered under C11; byte-for-byte agreement with an independent encoder for every chain type is outside per-function contracts over reflection-driven SCALE code",
+ "C20": "not reached: round state over a vote graph (ancestry walks, cumulative weights over a tree) needs inductive graph specifications; no contracts written",
  "C36": "quantifies over crash points of a global write history across packages followed by the restart path over pebble: needs a whole-schema recoverability predicate and fault enumeration, not a per-function contract",
 }
 
@@ -53,7 +59,7 @@ def main():
         "engines": [{"name": "vcheck", "path": "/verif/engine", "serves_properties": sorted(CHECKS),
                      "kind_free_text": "own verification-condition generator (symbolic execution / weakest preconditions over go/ssa of /repo's working tree, contracts from verif_contracts.go) discharging obligations with z3 4.8.12, z3 5.1.0, cvc5 1.0.3; counterexamples replayed with go test -overlay"}],
         "checks": checks,
-        "notes": "Contracts live in /repo/<pkg>/verif_contracts.go (tag verif). known_findings.jsonl lists fixed/known defects. Seeded property-breaking changes are under /verif/seeded (tools/seedrun.sh applies one, runs the check, undoes it). Two commits in /repo titled 'round N: uncommitted hook changes (driver)' are automatic snapshots: round 0 is empty; round 1 carried an unguarded in-progress edit of pkg/trie/inmemory/in_memory.go which the following commit reverts (in_memory.go equals the pinned source). DESIGN.md section 0a is the status of what is built and claimed.",
+        "notes": "Contracts live in /repo/<pkg>/verif_contracts.go (tag verif). known_findings.jsonl lists fixed/known defects. Seeded property-breaking changes are under /verif/seeded (tools/seedrun.sh applies one, runs the check, undoes it). Two commits in /repo titled 'round N: uncommitted hook changes (driver)' are automatic snapshots: round 0 is empty; round 1 carried an unguarded in-progress edit of pkg/trie/inmemory/in_memory.go which the following commit reverts (in_memory.go equals the pinned source). DESIGN.md section 0b is the status of what is built and claimed.",
         "not_applicable": na,
     }
     json.dump(m, open('/verif/MANIFEST.json', 'w'), indent=1)
